@@ -283,7 +283,6 @@ def run_shard(shard, tier, acc):
     d = tempfile.mkdtemp(prefix='c01_', dir='/dev/shm')
     try:
         if kind == 'words':
-            letters = _STATE['alph'][short].letters
             cases = ({'strategy': short, 'config': cfg, 'word': w, 'gz': len(w) > 2} for w in _words(short))
         elif kind == 'phred':
             def gen():
